@@ -17,8 +17,14 @@ inductive Handle
 
 def inlLast (raw : Bytes) : Nat := (raw.getD 15 0).toNat
 
+/-- `a.wrapping_sub(b)` on `usize` operands (`a, b < 2^64`), written without `%`: the kernel cannot
+evaluate `Nat.mod` on symbolic arguments (it unfolds the well-founded recursion and does not come back),
+which used to block every proof that runs an operation on a symbolic inline handle.
+`wrappingSub_eq_mod` (LSProofs/InlineLemmas.lean) proves it equal to `(a + 2^64 - b) % 2^64`. -/
+def wrappingSub (a b : Nat) : Nat := if b ≤ a then a - b else a + USIZE - b
+
 /-- `(last_byte as usize).wrapping_sub(MASK_1100_0000).min(MAX_INLINE_SIZE)` -/
-def inlLen (raw : Bytes) : Nat := min ((inlLast raw + USIZE - Gen.mask1100) % USIZE) MAX_INLINE
+def inlLen (raw : Bytes) : Nat := min (wrappingSub (inlLast raw) Gen.mask1100) MAX_INLINE
 
 def inlTag (len : Nat) : UInt8 := UInt8.ofNat ((len % 256) ||| Gen.mask1100)
 
